@@ -68,7 +68,7 @@ PROPS = {
         "trusted_base": COMMON_TB + ["modelled, not verified: request_builder.rs, protocol/request.rs serde derives, version Display"],
     },
     "C14": {
-        "run": ["EvalSM"],
+        "run": ["EvalProps"], "functional": False,
         "n": {"quick": 400, "thorough": 6000},
         "level_text": "The state machine is a total Gallina function from scripts to traces (no panic outcome exists in the model after the repairs); "
                       "storage faults cannot change requests or events (relational theorem over the model).  Tied to the code by running the real state machine "
@@ -80,5 +80,32 @@ PROPS = {
                 "distinct = distinct implementation trace; non-trivial = at least one HTTP request or completed check",
         "assumptions": ["harness trait implementations follow the trait contracts", "Storage trait contract: writes cached until commit"],
         "trusted_base": COMMON_TB + ["modelled, not verified: state_machine.rs, update_check.rs, builder.rs, app_set.rs, common.rs"],
+    },
+    "C01": {
+        "run": ["EvalC01"],
+        "n": {"quick": 30, "thorough": 300},
+        "level_text": "Every clause is a theorem about the Gallina model of verify_response + verify_response_with_signature + parse_etag + the id->key map, "
+                      "for all byte strings and for ARBITRARY sha256 / DER / ECDSA functions (explicit arguments, no axioms): accepted iff the first ETag is printable and, "
+                      "after parse_etag, is hex(s) ':' hex(SHA-256(request body)) with s passing the DER check and verifying under the key the map holds for the id over "
+                      "sha256(sha256 req ++ sha256 resp ++ dec id ++ ':' ++ hex nonce), s returned unchanged; plain/quoted/weak-quoted agree (exact side condition); "
+                      "the outcome is Ok or one of the 8 error variants; tamper theorems for response body, request body, nonce, key id, hash half, signature, signing key.",
+        "level_note": "Proved for the model, unbounded. The tamper theorems carry their idealising premises explicitly (no SHA-256 collision on the two inputs compared, digests of a "
+                      "fixed length, a signature verifies for at most one message under a key); ECDSA malleability is not excluded (the high-S twin is an authentic signature). "
+                      "Model = code is sampled: authentic exchanges signed by the harness with p256 over a digest composed with sha2 (never make_transaction_hash), plus mutation streams; "
+                      "the crypto tables the model is evaluated with come from sha2/p256 directly. 'No ETag text makes it panic' is by construction in the model and sampled "
+                      "under catch_unwind on the binary (unsafe from_utf8_unchecked in parse_etag).",
+        "diff_meaning": "Theorem C01_accept_iff and the rejection theorems determine the result (Ok signature / error variant) uniquely from the inputs and the primitives' verdicts; "
+                        "a case where StandardCupv2Handler returns something else (or panics) is an input on which the property fails.",
+        "rule": "n exchanges (random/JSON-like bodies 0-2 KiB, random nonce, 1-4 keys incl. duplicate ids, the same key under two ids, id absent from the set) x per-exchange mutation streams: "
+                "3 encodings; single-bit flips of the ETag bytes (64 sampled; thorough: all for one exchange in four), of both bodies, nonce, key id; truncation from both ends; halves swapped/"
+                "doubled/missing; hash prefix/extension; upper and mixed case; extra ':' parts; 20 quoting variants (one-sided, W/ without quotes, nested, 1-4 byte strings); empty/missing header; "
+                "white space; opaque bytes; duplicate ETag headers; re-signed with another key; digest re-composed in the 5 other orders, with each component dropped, with raw bodies, with other "
+                "renderings of id/nonce, with one hash fewer or more; non-DER, truncated, extended, zero-scalar and high-S signatures.  Header values that http::HeaderValue refuses are skipped.  "
+                "distinct = distinct input; non-trivial = an ETag header is present.",
+        "assumptions": ["sha2, p256, ecdsa (DER parser), hex and http::HeaderValue behave as their documentation says; their verdicts enter the model as lookup tables",
+                        "HeaderMap::get returns the first value of a repeated header"],
+        "trusted_base": COMMON_TB + ["modelled, not verified: omaha-client/src/cup_ecdsa.rs (StandardCupv2Handler::new, verify_response, make_transaction_hash, "
+                                     "verify_response_with_signature, parse_etag), HeaderValue::to_str, hex::decode, str::split_once, u64 Display",
+                                     "abstract in the proofs: SHA-256, DER decoding, ECDSA P-256 verification (RustCrypto crates, outside the repository)"],
     },
 }
